@@ -121,7 +121,11 @@ func (u *upstream) RoundTrip(req *http.Request) (*http.Response, error) {
 		ids = append(ids, "undecodable")
 	}
 	sort.Strings(ids)
+	// two dynamic headers; the request's header value is the pair
 	hdr := req.Header.Get("Region")
+	if sv, ok := req.Header["Svc"]; ok || hdr != "" {
+		hdr += "/" + strings.Join(sv, "+")
+	}
 	bid := strings.Join(ids, ",") + "|" + hdr
 	t0 := u.ms()
 	u.mu.Lock()
@@ -214,7 +218,7 @@ func runSchedule(t *testing.T, tw *trace.Writer, c *scase, idx int, res *vh.Resu
 		}
 		var dyn []string
 		if c.Cfg.Dyn {
-			dyn = []string{"region"}
+			dyn = []string{"region", "svc"}
 		}
 		w := time.Duration(c.Cfg.W) * time.Millisecond
 		if c.Cfg.W == -1 {
@@ -286,6 +290,12 @@ func runSchedule(t *testing.T, tw *trace.Writer, c *scase, idx int, res *vh.Resu
 						res.Hit("header-value-with-colon")
 					}
 					tags = append(tags, "region:"+hv)
+					if o.K%2 == 0 && (seq/3)%3 != 0 { // the line repeated the tag (the parser keeps repeats): the second header is still found
+						tags = append(tags, "region:"+hv)
+						res.Hit("dynamic-header-tag-repeated")
+					}
+					tags = append(tags, fmt.Sprintf("svc:s%d", o.K%2))
+					hv += fmt.Sprintf("/s%d", o.K%2)
 				}
 				if o.Op == "dispbad" {
 					tags = append(tags, "x:\xff\xfe")
@@ -308,8 +318,8 @@ func runSchedule(t *testing.T, tw *trace.Writer, c *scase, idx int, res *vh.Resu
 				stags := gostatsd.Tags{"a:b"}
 				shv := ""
 				if c.Cfg.Dyn {
-					shv = "shared"
-					stags = append(stags, "region:shared")
+					shv = "shared/shared"
+					stags = append(stags, "region:shared", "svc:shared")
 				}
 				mm.Receive(&gostatsd.Metric{Name: "st", Type: gostatsd.SET, StringValue: member, Rate: 1, Tags: stags, Source: gostatsd.Source(fmt.Sprint("c", o.K)), Timestamp: 1})
 				pts = append(pts, map[string]any{"id": member, "hv": shv})
